@@ -87,9 +87,9 @@ void h_run(Case &c) {
   g_c = &c; Draw &d = c.head; bool v2;
   std::string src = source_doc(c, d, v2);
   Doc doc = parse_doc(src); CHECK(c, doc.ok, "harness_parse", "the harness could not parse a hwloc export");
-  int nmut = 0; size_t trunc = 0; bool byteflip = false;
+  int nmut = 0; size_t trunc = 0, trunc_escaped = 0; bool byteflip = false;
   for (size_t i = 0; i < c.ops.size(); i++) {
-    Draw &o = c.ops[i]; std::vector<Node *> all; collect(doc.root, all); Node *n = all[o.raw() % all.size()]; int k = o.range(0, 15); std::string what;
+    Draw &o = c.ops[i]; std::vector<Node *> all; collect(doc.root, all); Node *n = all[o.raw() % all.size()]; int k = o.range(0, 16); std::string what;
     // objects dominate every document: one mutation in three targets the non-object elements (distances, memory attributes, CPU kinds, infos,
     // page types, userdata, support) or their parents, whose importers have their own bounds and counters (seeded change C06)
     { uint32_t pickv = o.raw(); if (o.chance(1, 3)) { std::vector<Node *> special; for (Node *x : all) { if (x->tag != "object" && x->tag != "topology") special.push_back(x); else for (auto &kid : x->kids) if (kid.tag != "object") { special.push_back(x); break; } } std::vector<Node *> counted; for (Node *x : special) if (x->tag.find("distances") != std::string::npos || x->tag.find("memattr") != std::string::npos || x->tag.find("cpukind") != std::string::npos) counted.push_back(x);
@@ -109,6 +109,8 @@ void h_run(Case &c) {
       if (!srcs.empty() && !dsts.empty()) { auto sp = srcs[o.raw() % srcs.size()]; Node moved = sp.first->kids[sp.second]; int mk = kind_of(&moved); std::vector<Node *> other; for (Node *x : dsts) if (kind_of(x) != mk && kind_of(x) > 0) other.push_back(x);
         if (!other.empty()) { std::string dty; sp.first->kids.erase(sp.first->kids.begin() + sp.second); std::vector<Node *> all2; collect(doc.root, all2); /* pointers may have moved: pick the destination again by kind */ std::vector<Node *> other2; for (Node *x : all2) if (x->tag == "object" && kind_of(x) != mk && kind_of(x) > 0) other2.push_back(x);
           if (!other2.empty()) { Node *dst = other2[o.raw() % other2.size()]; for (auto &a : dst->attrs) if (a.first == "type") dty = a.second; std::string mty; for (auto &a : moved.attrs) if (a.first == "type") mty = a.second; dst->kids.push_back(moved); what = strf("reparent object %s below %s", mty.c_str(), dty.c_str()); } } } }
+    else if (k == 16 && !n->attrs.empty()) {   // a document that ends inside an attribute value holding escape sequences (the in-place unescaping moves a read and a write cursor)
+      auto &a = n->attrs[o.raw() % n->attrs.size()]; int ne = o.range(1, 12); std::string v = "ESCV"; static const char *esc[] = {"&amp;", "&quot;", "&lt;", "&gt;", "&apos;", "&#10;"}; for (int e = 0; e < ne; e++) { v += o.pick(esc); if (o.chance(1, 3)) v += "z"; } a.second = v; trunc_escaped = 1 + o.raw() % (v.size() + 2); what = strf("end the document inside an escaped value of <%s %s> (%d escapes)", n->tag.c_str(), a.first.c_str(), ne); }
     else if (k == 10) { for (auto &a : doc.root.attrs) if (a.first == "version") a.second = mutate_value(o, "version", a.second); what = "change topology version"; }
     else if (k == 11) { trunc = 1 + o.raw(); what = "truncate"; }
     else if (k == 12) { byteflip = true; what = "flip a byte"; }
@@ -116,6 +118,7 @@ void h_run(Case &c) {
     if (!what.empty()) { nmut++; c.desc("\n | " + what); c.cls(("mut:" + what.substr(0, what.find(' '))).c_str()); }
   }
   std::string x = doc.prolog; ser(doc.root, x, 0);
+  if (trunc_escaped) { size_t mp = x.find("ESCV"); if (mp != std::string::npos) x = x.substr(0, std::min(x.size(), mp + trunc_escaped)); }
   if (trunc) x = x.substr(0, trunc % (x.size() + 1)); if (byteflip && !x.empty()) x[d.raw() % x.size()] = (char)d.range(1, 255);
   // configuration
   unsigned long flags = 0; if (d.chance(1, 3)) flags |= HWLOC_TOPOLOGY_FLAG_INCLUDE_DISALLOWED; if (d.chance(1, 3)) flags |= HWLOC_TOPOLOGY_FLAG_IMPORT_SUPPORT; int fsel = d.range(0, 3); bool viafile = d.chance(1, 4);
